@@ -543,7 +543,8 @@ def hooked_run(main, **kw):
         loop.set_exception_handler(lambda _l, _c: None)
         # the loop's default executor is owned as well: code that hands nodes to it (asyncio.to_thread,
         # run_in_executor(None, ...)) stays under the controller instead of escaping it
-        dflt = HookedPool(max_workers=16)
+        # deliberately SMALL (a machine with few CPUs): nodes that escape to it instead of the execution's own pool queue up
+        dflt = HookedPool(max_workers=2)
         loop.set_default_executor(dflt)
         try:
             return await main
@@ -715,7 +716,7 @@ def run_controlled(op, *, prefix=(), is_async=False, batch_order=False, watchdog
                 async def main():
                     loop = _real_asyncio.get_running_loop()
                     loop.set_exception_handler(lambda _l, _c: None)
-                    loop.set_default_executor(HookedPool(max_workers=16))
+                    loop.set_default_executor(HookedPool(max_workers=2))
                     try:
                         v = await op()
                         c.ev("ret")
